@@ -136,6 +136,22 @@ func init() {
 					}
 				}
 			}
+			// a plan prepared for all packagers, prepared again for one packager (what the packagers do with
+			// info.Contents after Validate / a first Package): same plan as preparing the list directly
+			for _, a := range c05Universe(true) {
+				for _, b := range c05Universe(true) {
+					for _, p := range []string{"deb", "rpm", "apk"} {
+						// the members of an expanded tree do not carry the tree's packager tag: a tagged
+						// tree is outside this part (its meaning after expansion is not documented)
+						if (a.Type == "tree" && a.Packager != "") || (b.Type == "tree" && b.Packager != "") {
+							continue
+						}
+						if !yield(C05Case{Part: "reprepare", Packager: p, List: []model.Entry{a, b}}) {
+							return
+						}
+					}
+				}
+			}
 			// map-order seam (woven copy): every list of <=2 entries over the reduced universe under
 			// every order of every map iteration of the planner
 			ru := c05Universe(true)
@@ -193,6 +209,9 @@ func checkC05(env *engine.Env, ci any) engine.Outcome {
 	c := ci.(C05Case)
 	if c.Part == "maporder" {
 		return checkC05MapOrder(env, c)
+	}
+	if c.Part == "reprepare" {
+		return checkC05Reprepare(env, c)
 	}
 	t := tree(env)
 	var out engine.Outcome
@@ -343,4 +362,44 @@ func descWant(es []model.PEntry) string {
 		parts = append(parts, e.Kind+" "+e.Dst)
 	}
 	return "[" + strings.Join(parts, "; ") + "]"
+}
+
+// checkC05Reprepare: prepare(prepare(list, ""), p) must plan the same destinations and kinds as prepare(list, p).
+func checkC05Reprepare(env *engine.Env, c C05Case) engine.Outcome {
+	var out engine.Outcome
+	t := tree(env)
+	umask := umaskOf(0o022)
+	direct, derr := files.PrepareForPackager(toContents(c.List, t), umask, c.Packager, false, PkgMTime)
+	all, aerr := files.PrepareForPackager(toContents(c.List, t), umask, "", false, PkgMTime)
+	out.Transitions = 3
+	if aerr != nil {
+		out.Key = "reprepare:first-fails"
+		return out
+	}
+	again, rerr := files.PrepareForPackager(all, umask, c.Packager, false, PkgMTime)
+	out.Nontrivial = len(all) > 0
+	render := func(cs files.Contents, err error) string {
+		if err != nil {
+			if errors.Is(err, files.ErrContentCollision) {
+				return "collision"
+			}
+			return "error"
+		}
+		var parts []string
+		for _, g := range cs {
+			parts = append(parts, g.Destination+"="+g.Type)
+		}
+		return strings.Join(parts, ",")
+	}
+	d, r := render(direct, derr), render(again, rerr)
+	out.Key = "reprepare:" + c.Packager + ":" + r
+	if derr != nil {
+		// the direct preparation rejects the list for this packager; only agreement of successful plans is judged
+		return out
+	}
+	if d != r {
+		out.Violations = append(out.Violations, engine.Violation{Sig: "plan:reprepare-differs:" + kindsOf(c.List),
+			Detail: fmt.Sprintf("packager=%q list=%s\npreparing the list for all packagers and the result again for %q plans\n  %s\npreparing the list directly for %q plans\n  %s", c.Packager, descList(c.List), c.Packager, r, c.Packager, d)})
+	}
+	return out
 }
